@@ -135,6 +135,92 @@ type c10Case struct {
 	Init    int    `json:"init"`
 	Letters []int  `json:"letters"`
 	Names   string `json:"history,omitempty"`
+	Sweep   []int  `json:"sweep,omitempty"` // method (0 StartPath, 1 SetCReg, 2 SetNReg, 3 SetCSel, 4 SetNSel), argument, incr, initial object
+}
+
+// c10Sweep: every value of the uint8 argument of the calls that take one, from the zero
+// value and after Reset: an adjustment above 6 (or an increment with a non-zero
+// adjustment) is an error, everything else decodes to the call; selectors count modulo 64.
+func c10Sweep(w *mc.W) {
+	for init := 0; init < 2; init++ {
+		for m := 0; m < 5; m++ {
+			for v := 0; v < 256; v++ {
+				for incr := 0; incr < 2; incr++ {
+					if incr == 1 && m != 1 && m != 2 {
+						continue
+					}
+					c10SweepOne(w, m, v, incr, init)
+				}
+			}
+		}
+	}
+}
+
+func c10SweepOne(w *mc.W, m, v, incr, init int) {
+	w.Eval()
+	e, _ := c10NewEncoder(init)
+	var want rec.Call
+	bad := false
+	name := ""
+	switch m {
+	case 0:
+		name = fmt.Sprintf("StartPath(%d,1,2); ClosePathEndPath", v)
+		e.StartPath(uint8(v), 1, 2)
+		e.ClosePathEndPath()
+		want, bad = rec.Call{M: rec.MStartPath, Adj: uint8(v), A: [6]float32{1, 2}}, v > 6
+	case 1:
+		name = fmt.Sprintf("SetCReg(%d,%v,rgba)", v, incr == 1)
+		e.SetCReg(uint8(v), incr == 1, c10Col)
+		want, bad = rec.Call{M: rec.MSetCReg, Adj: uint8(v), Incr: incr == 1, C: c10Col}, v > 6 || (incr == 1 && v != 0)
+	case 2:
+		name = fmt.Sprintf("SetNReg(%d,%v,1.25)", v, incr == 1)
+		e.SetNReg(uint8(v), incr == 1, 1.25)
+		want, bad = rec.Call{M: rec.MSetNReg, Adj: uint8(v), Incr: incr == 1, A: [6]float32{1.25}}, v > 6 || (incr == 1 && v != 0)
+	case 3:
+		name = fmt.Sprintf("SetCSel(%d)", v)
+		e.SetCSel(uint8(v))
+		want = rec.Call{M: rec.MSetCSel, Adj: uint8(v & 63)}
+	case 4:
+		name = fmt.Sprintf("SetNSel(%d)", v)
+		e.SetNSel(uint8(v))
+		want = rec.Call{M: rec.MSetNSel, Adj: uint8(v & 63)}
+	}
+	cs := c10Case{Init: init, Sweep: []int{m, v, incr, init}, Names: c10Inits[init] + ": " + name}
+	b, err := e.Bytes()
+	h := mc.NewHasher()
+	h.Str("sweep")
+	h.Byte(byte(m))
+	h.Bool(bad)
+	if bad {
+		if err == nil {
+			w.Fail("missing-error:sweep:"+[]string{"StartPath", "SetCReg", "SetNReg"}[m], fmt.Sprintf("[%s] violates the protocol (adjustment above 6, or increment with an adjustment) but Bytes() reports no error: %x", name, b), cs)
+		}
+		w.Count("error_states", 1)
+		w.Outcome(h.Sum(), true)
+		return
+	}
+	if err != nil {
+		w.Fail("spurious-error:sweep", fmt.Sprintf("[%s] respects the protocol but Bytes() reports %v", name, err), cs)
+		return
+	}
+	if m == 3 && int(e.CSel()) != v&63 || m == 4 && int(e.NSel()) != v&63 {
+		w.Fail("sweep:selector-readback", fmt.Sprintf("[%s]: read-backs CSEL=%d NSEL=%d", name, e.CSel(), e.NSel()), cs)
+		return
+	}
+	var rd rec.Dest
+	if derr := decode.Decode(&rd, b); derr != nil {
+		w.Fail("accepted-history-undecodable", fmt.Sprintf("[%s]: Decode of %x fails: %v", name, b, derr), cs)
+		return
+	}
+	wantN := 2
+	if m == 0 {
+		wantN = 3
+	}
+	if len(rd.Calls) != wantN || !rd.Calls[1].Equal(&want) {
+		w.Fail("decodes-differently:sweep", fmt.Sprintf("[%s]: stream %x decodes to %s", name, b, rec.CallsString(rd.Calls)), cs)
+		return
+	}
+	w.Outcome(h.Sum(), false)
 }
 
 func c10Names(ls []int) string {
@@ -158,14 +244,19 @@ func init() {
 		ID:    "C10",
 		Level: "model_checking",
 		Rule: "engine S: all histories of <=5 (thorough <=6, <=7 from the zero value) calls over a 29-letter alphabet of call classes (Bytes, CSel, NSel, LOD, SetCSel, SetNSel, SetCReg/SetNReg {ok, ok-incr, ADJ=7, incr with ADJ=1}, SetLOD, StartPath {ok, ADJ=7, ADJ=71}, SetCReg ADJ=130, SetNReg ADJ=64, L, A, H, Y, Z, Reset {default, custom}) from 3 initial objects (zero value, Reset(default), after an error), " +
+			"plus every value 0..255 of the uint8 argument of StartPath, SetCReg, SetNReg (with and without increment), SetCSel, SetNSel; " +
 			"each executed on a real Encoder in lock step with the 3-state specification automaton; then breadth-first search to depth 12 over canonical private states (reflective dump minus write-only buffers). " +
 			"In every state: Bytes errs iff the automaton is in error, the error value is the first one and sticky, Bytes twice equal, closed error-free histories decode to exactly the calls since the last Reset, zero-value and Reset(default) objects agree on bytes, errors and read-backs. " +
 			"states = distinct canonical Encoder states seen, transitions = calls executed in the BFS, evaluations = histories judged; non-trivial = history reaches the error state or contains a closed path",
 		Assumptions: []string{"abstraction drops the fields buf, altBuf, scratch, metadata (write-only after Reset); merges are validated by comparing incremental outputs on all 1-letter (depth<=5) and 2-letter (depth<=3) suffixes"},
-		Units:       func(tier string) int { return 3*nl*nl + 1 },
+		Units:       func(tier string) int { return 3*nl*nl + 2 },
 		Run: func(w *mc.W, u int) {
 			if u == 3*nl*nl {
 				c10BFS(w)
+				return
+			}
+			if u == 3*nl*nl+1 {
+				c10Sweep(w)
 				return
 			}
 			init, l0, l1 := u/(nl*nl), u/nl%nl, u%nl
@@ -201,6 +292,10 @@ func init() {
 			var cs c10Case
 			if err := unmarshalCase(data, &cs); err != nil {
 				return err
+			}
+			if cs.Sweep != nil {
+				c10SweepOne(w, cs.Sweep[0], cs.Sweep[1], cs.Sweep[2], cs.Sweep[3])
+				return nil
 			}
 			c10Check(w, cs.Init, cs.Letters)
 			return nil
